@@ -115,4 +115,74 @@ theorem recordPegRequests_never_fails (P : Params) (h : Nat) (rates avgs : TMap)
     exact ⟨_, rfl⟩
   · exact ⟨s1, rfl⟩
 
+
+/-! ### the keys of a pass are distinct when the joined entries are -/
+
+theorem nodup_hasDupKey : ∀ ks : List TxKey, ks.Nodup → hasDupKey ks = false := by
+  intro ks
+  induction ks with
+  | nil => intro _; rfl
+  | cons k rest ih =>
+    intro hn
+    obtain ⟨hk, hr⟩ := List.nodup_cons.1 hn
+    simp only [hasDupKey, Bool.or_eq_false_iff]
+    refine ⟨?_, ih hr⟩
+    apply Bool.eq_false_iff.2
+    intro hc
+    exact hk (List.contains_iff_mem.1 hc)
+
+theorem pegRequests_keys (P : Params) (h : Nat) (rates avgs : TMap) (batches : List TxEntry) :
+    (pegRequests P h rates avgs batches).map (·.key) =
+      batches.flatMap (fun e => (List.range e.txs.length).map (fun i => ({ idx := i, hash := e.hash } : TxKey))) := by
+  unfold pegRequests
+  induction batches with
+  | nil => rfl
+  | cons e rest ih =>
+    simp only [List.flatMap_cons, List.map_append, ih]
+    congr 1
+    rw [List.map_map]
+    have : ∀ (l : List Tx) (k : Nat), (l.zipIdx k).map ((fun r : PegReq => r.key) ∘ fun p =>
+        { key := { idx := p.2, hash := e.hash }, tx := p.1,
+          requested := (convertD P.act.pip10 h (toInt64 p.1.inAmount) (rates.get p.1.inType) (avgs.get p.1.inType) (rates.get p.1.conversion) (avgs.get p.1.conversion)).toNat }) =
+        (List.range' k l.length).map (fun i => ({ idx := i, hash := e.hash } : TxKey)) := by
+      intro l
+      induction l with
+      | nil => intro k; rfl
+      | cons t ts ih2 => intro k; simp only [List.zipIdx_cons, List.map_cons, List.length_cons, List.range'_succ, ih2 (k + 1)]; rfl
+    rw [this e.txs 0, List.range_eq_range']
+
+/-- distinct entry hashes ⇒ distinct (entry, index) keys ⇒ the duplicate-key test of the pass is negative -/
+theorem pegRequests_no_dup (P : Params) (h : Nat) (rates avgs : TMap) (batches : List TxEntry)
+    (hn : (batches.map (·.hash)).Nodup) :
+    hasDupKey ((pegRequests P h rates avgs batches).map (·.key)) = false := by
+  apply nodup_hasDupKey
+  rw [pegRequests_keys]
+  induction batches with
+  | nil => exact List.nodup_nil
+  | cons e rest ih =>
+    obtain ⟨he, hr⟩ := List.nodup_cons.1 hn
+    simp only [List.flatMap_cons]
+    rw [List.nodup_append]
+    refine ⟨?_, ih hr, ?_⟩
+    · have : ∀ (l : List Nat), l.Nodup → (l.map (fun i : Nat => ({ idx := i, hash := e.hash } : TxKey))).Nodup := by
+        intro l
+        induction l with
+        | nil => intro _; exact List.nodup_nil
+        | cons a as iha =>
+          intro hl
+          obtain ⟨h1, h2⟩ := List.nodup_cons.1 hl
+          rw [List.map_cons]
+          refine List.nodup_cons.2 ⟨?_, iha h2⟩
+          intro hm
+          obtain ⟨b, hb, hab⟩ := List.mem_map.1 hm
+          injection hab with hab _
+          exact h1 (hab ▸ hb)
+      exact this _ List.nodup_range
+    · intro a ha b hb hab
+      obtain ⟨i, _, rfl⟩ := List.mem_map.1 ha
+      obtain ⟨e', he', hb'⟩ := List.mem_flatMap.1 hb
+      obtain ⟨j, _, rfl⟩ := List.mem_map.1 hb'
+      injection hab with _ hh
+      exact he (by show e.hash ∈ rest.map (·.hash); rw [hh]; exact List.mem_map_of_mem he')
+
 end Pegnet
